@@ -49,6 +49,44 @@ func VerifFreeNodes() (set map[unsafe.Pointer]bool, cyclic bool) {
 	return set, false
 }
 
+// VerifFreeHandles returns the sets of nodeLocs and rootNodeLocs (version
+// handles) currently on their free lists; cyclic is true if a list loops.
+func VerifFreeHandles() (nodeLocs, rootNodeLocs map[unsafe.Pointer]bool, cyclic bool) {
+	nodeLocs, rootNodeLocs = map[unsafe.Pointer]bool{}, map[unsafe.Pointer]bool{}
+	freeNodeLocLock.Lock()
+	for n := freeNodeLocs; n != nil; n = n.next {
+		p := unsafe.Pointer(n)
+		if nodeLocs[p] {
+			cyclic = true
+			break
+		}
+		nodeLocs[p] = true
+	}
+	freeNodeLocLock.Unlock()
+	freeRootNodeLocLock.Lock()
+	for r := freeRootNodeLocs; r != nil; r = r.next {
+		p := unsafe.Pointer(r)
+		if rootNodeLocs[p] {
+			cyclic = true
+			break
+		}
+		rootNodeLocs[p] = true
+	}
+	freeRootNodeLocLock.Unlock()
+	return nodeLocs, rootNodeLocs, cyclic
+}
+
+// VerifRootHandles returns the addresses of the collection's current version
+// handle and of that version's root nodeLoc (nil, nil if the collection is closed).
+func (t *Collection) VerifRootHandles() (rootNodeLocPtr, nodeLocPtr unsafe.Pointer) {
+	t.rootLock.Lock()
+	defer t.rootLock.Unlock()
+	if t.root == nil {
+		return nil, nil
+	}
+	return unsafe.Pointer(t.root), unsafe.Pointer(t.root.root)
+}
+
 // VerifNode describes one cached tree node.
 type VerifNode struct {
 	Ptr      unsafe.Pointer
